@@ -21,6 +21,10 @@
 //! counted; a smaller unfiltered section keeps generating them and attributes a failure to
 //! a class only if emulating exactly that defect in the reference (or removing exactly that
 //! layout trigger) makes library and reference agree bit for bit again.
+//!
+//! Development aids (no effect on a normal run): `C17_NO_EXCLUSIONS=1` generates every class
+//! even if listed as known (e.g. against a patched checkout), `C17_DUMP=1` prints the texts
+//! of a replayed case.
 
 use geodesy::authoring::{parse_proj, Tokenize};
 use geodesy::prelude::*;
@@ -1613,10 +1617,10 @@ fn main() {
 
     let max_steps = if run.is_thorough() { 8 } else { 6 };
 
-    let n = run.scale(30_000, 500_000);
+    let n = run.scale(30_000, 400_000);
     run.section(
         "pipelines",
-        "PROJ pipeline ASTs (typed chains 70% / arbitrary 30%) over 18 shared operator names, header/globals/ellps/a+rf/k clashes, pipeline and step inv, omit_*, push/pop brackets, rendered in random layout; compared with the independent translation (bitwise, both directions, step count), with the inverted twin, idempotence of parse_proj; classes listed as known are excluded by construction (counters excluded_known:*); non-trivial = >= 2 steps and one of {global/local clash, inv, omit_*} and a finite effect on a probe",
+        "PROJ pipeline ASTs (typed chains 70% / arbitrary 30%) over 19 shared operator names, header/globals/ellps/a+rf/k clashes, pipeline and step inv, omit_*, push/pop brackets, rendered in random layout; compared with the independent translation (bitwise, both directions, step count), with the inverted twin, idempotence of parse_proj; classes listed as known are excluded by construction (counters excluded_known:*); non-trivial = >= 2 steps and one of {global/local clash, inv, omit_*} and a finite effect on a probe",
         n,
         move || case_strategy(max_steps, excl),
         check_pipe,
